@@ -598,7 +598,11 @@ func (c Constant) String() string {
 		}
 		var s strings.Builder
 		s.WriteRune('[')
-		s.WriteString((*c.fst).String())
+		first := (*c.fst).String()
+		if strings.HasPrefix(first, "-") {
+			s.WriteRune(' ') // "[-" would be read as the box-minus operator token
+		}
+		s.WriteString(first)
 		c = *c.snd
 		for !c.IsListNil() {
 			s.WriteString(", ")
@@ -613,7 +617,11 @@ func (c Constant) String() string {
 		}
 		var s strings.Builder
 		s.WriteRune('[')
-		s.WriteString((*c.fst.fst).String())
+		firstKey := (*c.fst.fst).String()
+		if strings.HasPrefix(firstKey, "-") {
+			s.WriteRune(' ') // "[-" would be read as the box-minus operator token
+		}
+		s.WriteString(firstKey)
 		s.WriteString(" : ")
 		s.WriteString((*c.fst.snd).String())
 		c = *c.snd
